@@ -68,9 +68,12 @@ def _c18(failure, fd):
     return bool(eval(fd["cond"], g))
 
 
+KEYS = ["doctrans.pure_utils:unquote", "doctrans.defaults_utils:needs_quoting", "doctrans.docstring_parsers:_set_name_and_type",
+        "doctrans.docstring_utils:emit_param_str"]
+
+
 def check(run, record_expected=False):
-    ded = deductive.run_deductive(run, ["doctrans.pure_utils:unquote", "doctrans.defaults_utils:needs_quoting",
-                                            "doctrans.docstring_parsers:_set_name_and_type"])  # NQ-norm: a wrapped type line re-joins before it is parsed
+    ded = deductive.run_deductive(run, KEYS)  # NQ-norm: a wrapped type line re-joins before it is parsed
     if record_expected:
         return ded
     deductive.add_evaluated(run, ded, type_obligations(), "doctrans.pure_utils:line_length")
